@@ -114,6 +114,12 @@ def check(cfg, lines):
     got_from = {}
     pulled_via = {}
     t_disc = {}
+    packed_sq, pull_sq = defaultdict(list), {}   # position in the trace of every pack / of a node's first pull of an item
+
+    def content_before(pal, n):
+        """what had been packed on the pallet when node n pulled it (a pallet may be packed again further down the line)"""
+        lim = pull_sq.get((n, pal), 10 ** 9)
+        return [i2 for (i2, _, _), q in zip(packed[pal], packed_sq[pal]) if q < lim]
     pull_log = defaultdict(list)     # node -> [(t, item, edge)] in log order
     push_log = defaultdict(list)
     max_held = Counter()
@@ -122,7 +128,9 @@ def check(cfg, lines):
     max_units = Counter()
     src_of_edge = {i: e["src"] for i, e in enumerate(ecfg)}
     dst_of_edge = {i: e["dst"] for i, e in enumerate(ecfg)}
+    sq = 0
     for e in ev:
+        sq += 1
         k = e[0]
         if k == "W":
             draws[e[1]][e[2]].append(e[3])
@@ -169,6 +177,7 @@ def check(cfg, lines):
                 v("C03", "item %d packed into pallet %d by node %d while they are at %s / %s" % (i, pal, n, place.get(i), place.get(pal)))
             place[i] = ("pal", pal)
             packed[pal].append((i, pulled_via.get((n, i)), n))
+            packed_sq[pal].append(sq)
             if i in held[n]:
                 held[n].remove(i)
         elif k == "P":
@@ -259,6 +268,7 @@ def check(cfg, lines):
                     units[dst].append(i)
                     max_units[dst] = max(max_units[dst], len(units[dst]))
             t_get[i].append((t, ed))
+            pull_sq.setdefault((dst, i), sq)
             got_from[i] = ed
             pulled_via[(dst, i)] = ed
             pull_log[dst].append((t, i, ed))
@@ -319,8 +329,9 @@ def check(cfg, lines):
         pushed = sum(1 for i in t_put for (t, ed) in t_put[i] if src_of_edge[ed] == n)
         if kind == "source" and not crash and not 0 <= int(nd["gen"]) - pushed - int(nd["disc"]) <= 1:
             # generated = pushed downstream + dropped (+ the one item the source may have in hand)
-            for pp in ("C18", "C03"):
-                v(pp, "source %d reports %s generated and %s discarded, it pushed %d items downstream" % (n, nd["gen"], nd["disc"], pushed))
+            for pp in ("C18", "C03") + (("C09",) if ncfg[n]["blocking"] else ()):
+                v(pp, "source %d reports %s generated and %s discarded, it pushed %d items downstream%s" %
+                      (n, nd["gen"], nd["disc"], pushed, " (a blocking source waits with the one item it has finished)" if ncfg[n]["blocking"] else ""))
         if kind in ("machine", "splitter", "combiner") and int(nd["procd"]) != pushed:
             v("C18", "%s %d reports %s processed, %d items were pushed downstream" % (kind, n, nd["procd"], pushed))
         if kind == "sink" and abs(float(nd["cycle"]) - cycle[n]) > 1e-6:
@@ -446,6 +457,23 @@ def check(cfg, lines):
         integral = L[0] + L[2] * (T - L[1])
         if abs(float(d["wsum"]) - integral) > 1e-6:
             v("C18", "edge %d: weighted occupancy sum %s, integral of the true occupancy %s" % (ed, d["wsum"], integral))
+    # ---------------- C12 inside factories: conveyor edges have unit item length, speed and slot delay, so successive entries are
+    # at least 1 apart, an item is offered no earlier than <capacity> after it entered, and no more than <capacity> items are on it
+    for ed, ec in enumerate(ecfg):
+        if ec["kind"] != "conv" or crash:
+            continue
+        ins_ = sorted((t, i) for i in t_put for (t, e2) in t_put[i] if e2 == ed)
+        for (ta, ia), (tb, ib) in zip(ins_, ins_[1:]):
+            if tb - ta < 1 - 1e-9:
+                v("C12", "conveyor %d: items %d and %d entered at %s and %s, less than one slot time (1) apart" % (ed, ia, ib, ta, tb))
+                break
+        for (ta, ia) in ins_:
+            outs_ = [t for (t, e2) in t_get[ia] if e2 == ed and t >= ta]
+            if outs_ and outs_[0] - ta < ec["cap"] - 1e-9:
+                v("C12", "conveyor %d: item %d entered at %s and was taken at %s, before the belt travel time %s" % (ed, ia, ta, outs_[0], ec["cap"]))
+                break
+        if occ_hi[ed][1] > ec["cap"]:
+            v("C12", "conveyor %d held %d items at %s, its capacity is %d" % (ed, occ_hi[ed][1], occ_hi[ed][0], ec["cap"]))
     # ---------------- C03 / C02: what each edge really holds at the end is what the movements say it holds
     for ed, d in edges.items():
         if "ready" not in d or crash:
@@ -464,6 +492,11 @@ def check(cfg, lines):
             v("C10", "edge %d: %d granted space reservation(s) left unused at the end of the run" % (ed, putres))
         if getres and ncfg[dst]["kind"] in ("sink", "machine"):
             v("C10", "edge %d: %d granted retrieval reservation(s) of %s %d left unused at the end of the run" % (ed, getres, ncfg[dst]["kind"], dst))
+        if ready and getres and ncfg[dst]["kind"] == "splitter" and not held[dst] and not units[dst]:
+            # a splitter claims a pallet and takes it as soon as its one worker is free; with nothing in its hands the worker IS free
+            for pp in ("C10", "C03"):
+                v(pp, "edge %d: pallet(s) %s are available to splitter %d, which holds nothing, but %d granted retrieval request(s) "
+                      "that nobody will use keep them (a request of an earlier round was never withdrawn)" % (ed, ready, dst, getres))
         if ready and ncfg[dst]["kind"] == "sink":
             v("C10", "edge %d: item(s) %s available to sink %d were not taken" % (ed, ready, dst))
             if getres:
@@ -489,7 +522,7 @@ def check(cfg, lines):
             pulled = [i2 for (tp, i2, ed) in pull_log[n]]
             emitted = Counter(i2 for (i2, _) in seq)
             for pal in pulled:
-                content = [i2 for (i2, _, _) in packed[pal]]
+                content = content_before(pal, n)
                 for x in content + [pal]:
                     done = emitted[x] + (1 if (n, x) in t_disc else 0)
                     if done > 1:
@@ -504,7 +537,7 @@ def check(cfg, lines):
             for pal in pulled[:-1]:
                 if emitted[pal] == 0 and (n, pal) not in t_disc:
                     v("C16", "splitter %d went on to the next pallet without emitting pallet %d" % (n, pal))
-            extra = [x for x in emitted if x not in pulled and not any(x in [i2 for (i2, _, _) in packed[p_]] for p_ in pulled)]
+            extra = [x for x in emitted if x not in pulled and not any(x in content_before(p_, n) for p_ in pulled)]
             if extra:
                 v("C16", "splitter %d emitted items %s that it never received" % (n, extra))
     # ---------------- C08 / C10: a finished item waits only while no permitted out-edge has room
@@ -617,7 +650,7 @@ def check(cfg, lines):
             delays = nc["delays"]
             for k, (t, pal, ed) in enumerate(pull_log[n]):
                 d = delays[k % len(delays)]
-                content = [i2 for (i2, _, _) in packed[pal]] + [pal]
+                content = content_before(pal, n) + [pal]
                 firsts = [tp for (tp, i2, e2) in push_log[n] if i2 in content] + [t_disc[(n, x)] for x in content if (n, x) in t_disc]
                 if not nc["blocking"]:
                     late = [tt for tt in firsts if tt != t + d]
